@@ -1,6 +1,7 @@
 import OSProofs.Props.C09
 import OSProofs.Props.FL2
 import OSProofs.MonoArithInst
+import OSProofs.Props.PredictLoops
 #print axioms OS.predictWin_eq_winVal
 #print axioms OS.C09_length
 #print axioms OS.C09_entry
@@ -29,3 +30,8 @@ import OSProofs.MonoArithInst
 #print axioms OS.FL_C09_range_two_or_more
 #print axioms OS.FL_C09_range_all
 #print axioms OS.FL_C09_length
+#print axioms OS.permutations2_eq_orderedPairs
+#print axioms OS.zipLongestIter_eq_chunk
+#print axioms OS.pl2_zipLongestIter_eq_pad
+#print axioms OS.predictWinLoop_eq
+#print axioms OS.predictWinLoop_eq_real
